@@ -10,8 +10,8 @@
   A Python `str` is a `List Char` (sequence of code points).  Constants (delimiter sets, the mark, the
   window, the prefix regex, the call-site arguments) come from `Generated/Text.lean`, regenerated from
   the source on every run.  Parameters of the model (outside the code): the word-character class `\w`
-  of Python's `re` (`isWord`), `str.splitlines` (callers pass the list of lines), CPython's parser
-  (callers pass `np(node)` and the bound name).
+  of Python's `re` (`isWord`), CPython's parser (callers pass `np(node)` and the bound name).
+  `util.splitlines` is modelled (`splitlines`); the class `\s` of `re` is the table `pyIsSpace`.
 -/
 import SuppModel.Generated.Text
 
@@ -66,6 +66,32 @@ def joinNl : List Str → Str
   | [] => []
   | [l] => l
   | l :: l' :: r => l ++ '\n' :: joinNl (l' :: r)
+
+/-- `re.split(p, s)` for a pattern `p` = alternatives of one-character separators `sep`, with `\r\n` as one separator when
+    `crlf`: `cr` says that the previous character was a `\r` that already split (a `\n` right after it splits no more) -/
+def splitNlAux (sep : Char → Bool) (crlf : Bool) : Bool → Str → List Str
+  | _, [] => [[]]
+  | cr, c :: t =>
+    if c = '\n' ∧ cr = true ∧ crlf = true then splitNlAux sep crlf false t
+    else if sep c then [] :: splitNlAux sep crlf (c == '\r') t
+    else match splitNlAux sep crlf false t with
+      | h :: r => (c :: h) :: r
+      | [] => [[c]]
+
+/-- split into lines at the separators `sep`, dropping one trailing empty line -/
+def splitlinesWith (sep : Char → Bool) (crlf : Bool) (s : Str) : List Str :=
+  let ls := splitNlAux sep crlf false s
+  if ls.getLast? = some [] then ls.dropLast else ls
+
+/-- `util.splitlines(source)`: the lines as the parser counts them -/
+def splitlines (s : Str) : List Str := splitlinesWith Generated.isLineSep Generated.crlfIsOne s
+
+/-- legacy (before f8cda8c): `str.splitlines`, which also breaks at VT, FF, FS, GS, RS, NEL, LS, PS -/
+def legacyLineSep (c : Char) : Bool :=
+  c == '\n' || c == '\r' || c == '\x0b' || c == '\x0c' || c == '\x1c' || c == '\x1d' || c == '\x1e' ||
+  c == '\x85' || c == '\u2028' || c == '\u2029'
+
+def splitlinesLegacy (s : Str) : List Str := splitlinesWith legacyLineSep true s
 
 /-- `s.rpartition(c)[2]` for a one-character separator: the text after the last `c`, or all of `s` -/
 def afterLast (c : Char) : Str → Str
@@ -221,24 +247,40 @@ def legacySep (c : Char) : Bool := c == '.' || pyIsSpace c || c == '('
 
 def prefixOfLegacy (line : Str) : Str := (splitBy legacySep line).getLastD []
 
-/-- the `from` branch of assist is taken when
-    `line.lstrip().startswith('from ') and ' import ' not in line` -/
-def fromBranch (line : Str) : Bool :=
-  Generated.fromKw.isPrefixOf (lstrip line) && !contains line Generated.importKw
+/-- the `from` branch of assist: `from_module = re.match(r'\s*from\s+([\w.]*)$', line)`; `group(1)` if it matches.
+    (`\s` of `re` on str is `str.isspace` per character: `pyIsSpace`.) -/
+def fromMatch (isWord : Char → Bool) (line : Str) : Option Str :=
+  Generated.fromModule isWord pyIsSpace line
 
-/-- its prefix: `iname = line.rpartition(' ')[2]; package, sep, prefix = iname.rpartition('.')` -/
-def fromPrefix (line : Str) : Str :=
-  (rpartition Generated.fromSep2 (rpartition Generated.fromSep1 line).2.2).2.2
+/-- its prefix: `package, sep, prefix = from_module.group(1).rpartition('.')` -/
+def fromPrefixOf (m : Str) : Str := (rpartition Generated.fromSep2 m).2.2
 
 /-- and the package whose sub-packages are listed -/
-def fromPackage (line : Str) : Str :=
-  let iname := (rpartition Generated.fromSep1 line).2.2
-  let (package, sep, _) := rpartition Generated.fromSep2 iname
+def fromPackageOf (m : Str) : Str :=
+  let (package, sep, _) := rpartition Generated.fromSep2 m
   if (package.isEmpty || ['.'].isPrefixOf package) && !sep.isEmpty then package ++ ['.'] else package
 
 /-- the first component of what `assist` returns, for the text left of the cursor -/
 def assistPrefix (isWord : Char → Bool) (line : Str) : Str :=
-  if fromBranch line then fromPrefix line else prefixOf isWord line
+  match fromMatch isWord line with
+  | some m => fromPrefixOf m
+  | none => prefixOf isWord line
+
+/-! legacy `from` branch (before ab8463e): taken when `line.lstrip().startswith('from ') and ' import ' not in line`,
+    prefix = `line.rpartition(' ')[2].rpartition('.')[2]` -/
+
+def legacyFromKw : Str := ['f', 'r', 'o', 'm', ' ']
+def legacyImportKw : Str := [' ', 'i', 'm', 'p', 'o', 'r', 't', ' ']
+def legacyFromSep1 : Char := ' '
+
+def fromBranchLegacy (line : Str) : Bool :=
+  legacyFromKw.isPrefixOf (lstrip line) && !contains line legacyImportKw
+
+def fromPrefixLegacy (line : Str) : Str :=
+  (rpartition Generated.fromSep2 (rpartition legacyFromSep1 line).2.2).2.2
+
+def assistPrefixLegacy (isWord : Char → Bool) (line : Str) : Str :=
+  if fromBranchLegacy line then fromPrefixLegacy line else prefixOf isWord line
 
 /-! ## C12: the mark -/
 
@@ -246,7 +288,7 @@ def assistPrefix (isWord : Char → Bool) (line : Str) : Str :=
 def markLine (line : Str) (col : Nat) : Str :=
   line.take col ++ Generated.sourceMark ++ line.drop col
 
-/-- `Source.__init__(source, filename, position)` with `lines = source.splitlines()`:
+/-- `Source.__init__(source, filename, position)` with `lines0 = splitlines(source)`:
     the lines of the marked source (`self.lines`; `self.source` is their `joinNl`) -/
 def markLines (lines0 : List Str) (ln col : Nat) : Except PyErr (List Str) :=
   let lines := if lines0.isEmpty then [[]] else lines0
@@ -257,6 +299,9 @@ def markLines (lines0 : List Str) (ln col : Nat) : Except PyErr (List Str) :=
   match lines[i]? with
   | none => .error .indexError
   | some line => .ok (lines.set i (markLine line col))
+
+/-- `Source(source, filename, (ln, col)).lines` -/
+def markSource (source : Str) (ln col : Nat) : Except PyErr (List Str) := markLines (splitlines source) ln col
 
 /-- `SOURCE_MARK in name` -/
 def marked (name : Str) : Bool := contains name Generated.sourceMark
